@@ -188,6 +188,7 @@ func restartMain(w *World, args []string) {
 	seed := uint64(1)
 	subsets := 2
 	every := false
+	allOnly := false
 	for i := 0; i+1 < len(args); i += 2 {
 		switch args[i] {
 		case "-ops":
@@ -200,6 +201,8 @@ func restartMain(w *World, args []string) {
 			fmt.Sscan(args[i+1], &subsets)
 		case "-every":
 			every = args[i+1] == "1"
+		case "-all":
+			allOnly = args[i+1] == "1"
 		}
 	}
 	f, err := os.Open(opsPath)
@@ -250,6 +253,14 @@ func restartMain(w *World, args []string) {
 			for bi := 1; bi < len(h.Blocks); bi++ {
 				all[bi] = true
 				sets = append(sets, map[int]bool{bi: true})
+			}
+			sets = append(sets, all)
+		}
+		if allOnly && !every {
+			// a restart before every block
+			all := map[int]bool{}
+			for bi := 1; bi < len(h.Blocks); bi++ {
+				all[bi] = true
 			}
 			sets = append(sets, all)
 		}
